@@ -131,4 +131,24 @@ PROPS = {
              "nontrivial": seamish},
         ],
     },
+    "C18": {
+        "level": "model_checking",
+        "claim": "Interleaving is specified on digit strings (h[k] = 2 j[k] + i[k]) and model-checked invertible with the stated restrictions for "
+                 "all (i, j) of 5 (7) bits; uniq / uniq_ivoa are digit-string constructions model-checked injective and inverted for all cells "
+                 "of depth <= 3 (4). TLC generates every (i, j) of 4 (6) bits with its expected code, replayed at several bit offsets through every "
+                 "implementation reachable from outside the crate (get_zoc for the four depth classes, LARGE_ZOC_LUT, LARGE_ZOC_XOR, and in a second "
+                 "build with -C target-feature=+bmi2 the BMI2 variants and LARGE_ZOC_BMI); recorded calls (byte-wise patterns, single bits, random) "
+                 "and uniq round trips at all depths are validated by the trace spec in both builds. The #[cfg(test)] SMALL/MEDIU XOR variants are "
+                 "not reachable from outside the crate and are not covered.",
+        "rule": "events = (impl, i, j, ij2h, i02h, oj2h, h2ij->ij2i/ij2j) as bit / base-4 digit strings, and (depth, hash, to_uniq, to_uniq_ivoa, "
+                "from_uniq, from_uniq_ivoa, Layer variants) as digit strings, rejections of depth > 29; non-trivial = all distinct events",
+        "assumptions": ["TLC / SANY and the CommunityModules Json/IOUtils are correct", "u64 -> bit / base-4 digit conversion of the harness (shifts and masks)"],
+        "stages": [
+            {"kind": "mc", "module": "MC_Zoc", "cfg": {"quick": "MC_Zoc.cfg", "thorough": "MC_Zoc_thorough.cfg"}, "workers": 4},
+            {"kind": "gen", "module": "Gen_Zoc", "cfg": {"quick": "Gen_Zoc.cfg", "thorough": "Gen_Zoc_thorough.cfg"}, "scenario": "C18", "exhaustive": True,
+             "profiles": ["release", "bmi2"]},
+            {"kind": "rec", "scenario": "C18", "count": {"quick": 12000, "thorough": 300000}, "trace_module": "Trace_Geo", "trace_cfg": "Trace_Geo.cfg",
+             "profiles": ["release", "bmi2"]},
+        ],
+    },
 }
